@@ -47,6 +47,8 @@ type Prog struct {
 	implCache    map[string][]types.Type
 	loadSecs     float64
 	allocCache   map[*ssa.Function]map[string]types.Type
+	baseNames    map[string]FuncNames
+	aliasCache   map[*ssa.Function]*nameAlias
 }
 
 func LoadProg(repo, trustedDir string) (*Prog, error) {
@@ -128,6 +130,7 @@ func LoadProg(repo, trustedDir string) (*Prog, error) {
 		return nil, err
 	}
 	p.cs = cs
+	p.loadBaseNames(filepath.Dir(trustedDir))
 	p.instantiateDefaults()
 	if err := p.resolveGhosts(); err != nil {
 		return nil, err
